@@ -1,1 +1,47 @@
-fn main() { eprintln!("engine not built yet"); std::process::exit(2); }
+//! mc-bridge: engines `bridgex` (C09, C12, C11) and `closure` (C13).
+//! Usage: mc-bridge <C09|C11|C12|C13> --tier quick|thorough [--replay <path>]
+
+mod app;
+mod c09;
+mod c11;
+mod c12;
+mod c13;
+mod capp;
+mod explore;
+mod fault;
+mod faultsys;
+mod sys;
+mod watch;
+
+#[global_allocator]
+static ALLOC: mc_kit::alloc::Counting = mc_kit::alloc::Counting;
+
+fn main() {
+    // captured panics are findings, not crashes: no backtrace capture (std, anyhow, http-types)
+    std::env::set_var("RUST_BACKTRACE", "0");
+    std::env::set_var("RUST_LIB_BACKTRACE", "0");
+    let args: Vec<String> = std::env::args().skip(1).collect();
+    mc_kit::install_panic_hook();
+    let Some(id) = args.first().cloned() else {
+        eprintln!("usage: mc-bridge <C09|C11|C12|C13> --tier quick|thorough [--replay <path>]");
+        std::process::exit(2);
+    };
+    let tier = mc_kit::Tier::from_args(&args);
+    let replay = mc_kit::arg_value(&args, "--replay");
+    let code = match (id.as_str(), replay) {
+        ("C09", Some(p)) => c09::replay_file(&p),
+        ("C09", None) => c09::run(tier, &args),
+        ("C11", Some(p)) => c11::replay_file(&p),
+        ("C11", None) => c11::run(tier, &args),
+        ("C11-child", _) => c11::child(&args),
+        ("C12", Some(p)) => c12::replay_file(&p),
+        ("C12", None) => c12::run(tier, &args),
+        ("C13", Some(p)) => c13::replay_file(&p),
+        ("C13", None) => c13::run(tier, &args),
+        _ => {
+            eprintln!("MACHINERY-ERROR: unknown property {id}");
+            2
+        }
+    };
+    std::process::exit(code);
+}
